@@ -19,7 +19,10 @@ REQUIRED = ["parse_sound", "last_member_decides", "lc_exact", "lc_exact_fails_wi
             "concurrent_adds_keep_invariant", "created_tx_admissible", "notified_exactly_once",
             "fact_allowed_algos", "fact_allowed_versions", "fact_header_names", "fact_parse_steps",
             "fact_signature_count_checked", "fact_lc_strict", "fact_jwk_public_only", "embedded_key_is_public", "fact_strict_framing", "accepted_bytes_are_a_jws_serialization", "fact_prev_verifier", "fact_verifier_order",
-            "fact_signature_verifier", "fact_add_two_phases", "fact_root_check"]
+            "fact_signature_verifier", "fact_add_two_phases", "fact_root_check",
+            # deepening round 2026-09-28
+            "fact_framing_body", "accepted_bytes_pass_framing", "accepted_compact_is_three_canonical_segments", "one_signed_transaction_one_ref",
+            "honest_compact_passes_framing", "decoder_alone_is_not_injective"]
 
 HEX64 = re.compile(r"^[0-9a-fA-F]{64}$")
 
@@ -59,6 +62,30 @@ def framing_ok(inp_b64):
         except Exception:
             return False
     return True
+
+
+WHITE_SPACE = set([9, 10, 11, 12, 13, 32, 0x85, 0xA0, 0x1680, 0x2028, 0x2029, 0x202F, 0x205F, 0x3000]) | set(range(0x2000, 0x200B))
+
+
+def framing_spec(inp_b64):
+    """the framing check alone (it runs after jws.Parse accepted the input): leading Unicode White_Space, then '{' = JSON serialization;
+    otherwise exactly three canonical unpadded base64url segments"""
+    raw = base64.b64decode(inp_b64)
+    i = 0
+    while i < len(raw):
+        ch, used = None, 0
+        for n in (1, 2, 3, 4):
+            try:
+                ch, used = raw[i:i + n].decode("utf-8"), n
+                break
+            except UnicodeDecodeError:
+                ch = None
+        if ch is None or len(ch) != 1 or ord(ch) not in WHITE_SPACE:
+            break
+        i += used
+    if raw[i:i + 1] == b"{":
+        return True
+    return framing_ok(inp_b64)   # its own JSON branch (ASCII white space only) cannot fire any more: three canonical segments
 
 
 def wellformed(jws, algos):
@@ -234,7 +261,7 @@ def run(ctx):
     def replay_text(i):
         meta = json.dumps({"op": "meta", "leg": leg_of[i], "seed": ctx.seed})
         op = ops[i].get("op")
-        if op == "parse":
+        if op in ("parse", "framing"):
             return meta + "\n" + raw_ops[i]
         return meta + "\n" + "\n".join(raw_ops[hist_start(i):i + 1])
 
@@ -252,6 +279,8 @@ def run(ctx):
     notes = Counter()
     distinct = set()
     n_parse_ok = n_unmodelled = 0
+    n_framing = 0
+    fr_notes = Counter()
     ver_trunc = 0
     for i, op in enumerate(ops):
         kind = op.get("op")
@@ -259,6 +288,19 @@ def run(ctx):
         calls = [op["call"]] if kind in ("parse", "add") else (op.get("calls") or [])
         for c in calls:
             distinct.add(c["jws"].get("ref"))
+        if kind == "framing":
+            # deepening round: the REAL isJWSSerialization on raw bytes against RFC 7515 re-stated here (framing_ok), both directions
+            n_framing += 1
+            fr_notes[(op["call"].get("note") or "").split(":")[0]] += 1
+            got = impl[i].split(" ")[0]
+            want = "fr=true" if framing_spec(op["call"]["in"]) else "fr=false"
+            stats["framing:" + got] += 1
+            if got == "fr=true" and want == "fr=false":
+                violate("C06:framing-check-passes-non-serialization", "isJWSSerialization passed bytes that are not a JWS serialization (RFC 7515: JSON, or exactly "
+                        "three canonical unpadded base64url segments): one signed transaction gets many refs", i)
+            elif got == "fr=false" and want == "fr=true":
+                violate("C06:framing-check-refuses-serialization", "isJWSSerialization refused a canonical JWS serialization (a valid transaction can no longer enter the DAG)", i)
+            continue
         if kind != "parse":
             continue
         line = impl[i]
@@ -290,6 +332,7 @@ def run(ctx):
         ver = jval(m.get("ver", {}))
         if ver is not None and ver.denominator != 1:
             ver_trunc += 1
+    ctx.oblige("oracle:framing-check-is-rfc7515(impl)", not any(s.startswith("C06:framing-check") for s in seen_sig), f"{n_framing} byte strings re-checked")
     ctx.oblige("oracle:parser-accepts-only-wellformed(impl)", not any(s.startswith("C06:parser") or s in ("C06:lc-not-exact", "C06:embedded-private-jwk", "C06:not-a-jws-serialization") for s in seen_sig),
                f"{n_parse_ok} accepted inputs re-checked")
     if ver_trunc:
@@ -648,7 +691,7 @@ def run(ctx):
                        "re-offers after the missing prev arrived, a second state on the same DB; full observation after every op; (3) schedules: 8 scenario kinds x "
                        "ALL interleavings of read-tx/write-tx steps (6 for 2 threads, 90 for 3) forced by a gating KVStore. distinct_nontrivial = distinct input byte strings offered")
     ctx.cov["input_distribution"] = {"ops": {k: v for k, v in sorted(stats.items())}, "mutation_classes": dict(notes.most_common(40)),
-                                     "parse_unmodelled_framing": n_unmodelled, "schedules": n_sched, "schedule_scenarios": n_groups,
+                                     "parse_unmodelled_framing": n_unmodelled, "framing_inputs": n_framing, "framing_classes": dict(fr_notes.most_common(40)), "schedules": n_sched, "schedule_scenarios": n_groups,
                                      "legs": dict(Counter(leg_of)), "transaction_lists(v2 handler)": n_list, "late_payloads(v2 handler)": n_late,
                                      "CreateTransaction calls (wired Network)": n_create,
                                      "adds": {"total": n_add, "admitted": n_admit, "rejected": n_reject, "re-adds": n_readd, "context-cancelled-in-write-tx": n_cancel}}
